@@ -1154,11 +1154,15 @@ pub fn run_c20_lib(cfg: &Cfg) -> i32 {
     );
     rep.assumptions.push("trivially encoded = the encodings enumerated in harness/src/secrets.rs".into());
     let mut cases = Vec::new();
-    let n = cfg.count(30, 900);
+    let n = cfg.count(36, 900);
     for i in 0..n {
         let idx = cfg.case_index(i);
         let mut r = cfg.prng("C20", idx);
-        let (tr, outcome, key, cert) = match r.below(10) {
+        let unusual = crate::peers::UNUSUAL_KEYS[(idx as usize) % crate::peers::UNUSUAL_KEYS.len()];
+        // every unusual key once, then at random
+        let pick = if (idx as usize) < crate::peers::UNUSUAL_KEYS.len() { 10 } else { r.below(12) };
+        let (tr, outcome, key, cert) = match pick {
+            10 | 11 => ("tls", "unusable-key", unusual.0, unusual.1),
             0 => ("tls", "success", "client.key", "client.crt"),
             1 => ("tls", "success", "client.sec1.key", "client.crt"),
             2 => ("tls", "success", "client-rsa.key", "client-rsa.crt"),
